@@ -22,6 +22,7 @@ Qed.
 Lemma wf_stepb_wf s o : wf_stepb s o = true -> wf_step s o.
 Proof.
   destruct o; cbn [wf_stepb wf_step]; auto.
+  - intros H. now apply Z.leb_le.
   - intros H l e L AE a Ha Hh. rewrite L, AE in H. rewrite forallb_forall in H. specialize (H a Ha).
     apply orb_true_iff in H. destruct H as [H|H].
     + apply negb_true_iff, N.eqb_neq in H. contradiction.
